@@ -27,7 +27,7 @@ from contracts.resource import busy, decode
 
 
 class IndBase(Contract):
-    props = ("C08",)
+    props = ("C08", "C05")
     task_sets = (("Fm",), ("Fm", "Vo"), ("Fo", "Fm"), ("Vm", "Fm", "Fo"))
     horizons = ("int",)
     with_worker = True
@@ -65,15 +65,19 @@ class IndBase(Contract):
                 P.assume(P.int(f"t{i+1}_due") >= 0)
                 P.assume(P.int(f"t{i+1}_prio") >= 0)
             t = make_task(ps, P, cls, f"t{i+1}", optional=opt, due=("int" if self.with_due else None), deadline=False)
-            if self.with_due:
+            if self.with_due and case.get("prio") != "default":
                 t.priority = P.int(f"t{i+1}_prio")
             if w is not None:
-                t.add_required_resource(w)
+                if case.get("assign") == "select":
+                    # an alternative assignment: the task chooses between the worker and another one
+                    t.add_required_resource(ps.SelectWorkers(list_of_workers=[w, ps.Worker(name=f"other{i+1}")], nb_workers_to_select=1))
+                else:
+                    t.add_required_resource(w)
             tasks.append(t)
         ind = self.build(ps, P, case, pb, w, tasks)
         solver = ps.SchedulingSolver(problem=pb)
         solver.initialize()
-        return dict(pb=pb, w=w, tasks=tasks, ind=ind, solver=solver)
+        return dict(pb=pb, w=w, tasks=tasks, ind=ind, solver=solver, assign=case.get("assign"))
 
     def held(self, ctx):
         w = ctx["w"]
@@ -82,7 +86,8 @@ class IndBase(Contract):
         for t in ctx["tasks"]:
             for u in units:
                 bs, be = busy(u, t)
-                cond = spec.sched(t) if len(units) == 1 else And(spec.sched(t), bs >= 0)
+                # a unit of a cumulative worker / a worker chosen through a selection: held iff not parked in the past
+                cond = spec.sched(t) if (len(units) == 1 and ctx.get("assign") != "select") else And(spec.sched(t), bs >= 0)
                 out.append((t, cond, bs, be))
         return out
 
@@ -99,7 +104,39 @@ class IndBase(Contract):
             Clause("equals[indicator = definition on the schedule]", goal, hyps=A, props=("C08",), kind="equals", bounded=self.bounded, regions=self.regions(P, ctx, case)),
             Clause("state[registered with the problem]", z3.BoolVal(registered), props=("C08",), kind="state"),
         ]
+        out += self.observer_clause(P, ctx, case, A)
         return out
+
+    def observer_clause(self, P, ctx, case, A):
+        """C05: an indicator observes, it never forbids -- every valid schedule is admitted with *some* value of
+        the indicator (and of the other auxiliary unknowns).  Claimed with a directly assigned plain worker, whose
+        tasks have positive length."""
+        from contracts.task_constraint import valid_placement, fresh_consts
+
+        w = ctx.get("w")
+        if ctx.get("assign") == "select" or (w is not None and type(w).__name__ != "Worker"):
+            return []
+        pb, tasks = ctx["pb"], ctx["tasks"]
+        hz, H = pb._horizon, pb.horizon
+        valid = [valid_placement(t, i + 1, hz, H) for i, t in enumerate(tasks)] + [hz >= 0]
+        if H is not None:
+            valid.append(hz <= T(H))
+        rest, known = [], []
+        if w is not None:
+            for t in tasks:
+                bs, be = busy(w, t)
+                rest += [bs == t._start, be == t._end, Implies(spec.sched(t), t._end > t._start)]
+                known += [bs.decl().name(), be.decl().name()]
+            for a, b in itertools.combinations(tasks, 2):
+                rest.append(Implies(And(spec.sched(a), spec.sched(b)), spec.disjoint(a._start, a._end, b._start, b._end)))
+        aux = fresh_consts(A, tasks, pb, extra_known=known)
+        goal = z3.Exists(aux, And(*A)) if aux else And(*A)
+        D = self.definition(P, ctx, case)
+        v = self.var(ctx)
+        if not callable(D) and len(aux) == 1 and aux[0].eq(v):
+            # the only auxiliary unknown is the indicator itself: its defined value is the witness
+            goal = z3.substitute(And(*A), (v, T(D)))
+        return [Clause("complete[the indicator never excludes a valid schedule]", goal, hyps=valid + rest, props=("C05",), kind="complete", bounded=self.bounded)]
 
     def regions(self, P, ctx, case):
         return None
@@ -117,11 +154,12 @@ class Utilization(IndBase):
     bounded = "horizon in {1,3,7,10,64,100,150,200} or not given; 1..3 tasks on the resource; other integers symbolic"
 
     def extra_cases(self, tier):
-        return [{"res": "worker"}, {"res": "cumulative"}]
+        return [{"res": "worker"}, {"res": "cumulative"}, {"res": "worker", "assign": "select"}]
 
     def cases(self, tier):
         out = super().cases(tier)
-        return [c for c in out if not (c["res"] == "cumulative" and len(c["ts"]) > 2)]
+        out = [c for c in out if not (c["res"] == "cumulative" and len(c["ts"]) > 2)]
+        return [c for c in out if not (c.get("assign") == "select" and (len(c["ts"]) > 2 or c["horizon"] not in (7, 100, None)))]
 
     def make_worker(self, ps, P, case):
         return ps.Worker(name="w") if case["res"] == "worker" else ps.CumulativeWorker(name="w", size=2)
@@ -190,10 +228,10 @@ class ResourceCost(IndBase):
     bounded = "1..3 tasks on the resource; cost coefficients and all integers symbolic"
 
     def extra_cases(self, tier):
-        return [{"cost": c, "res": "worker"} for c in ("const", "const0", "const1", "linear", "poly2", "default")] + [{"cost": "const", "res": "cumulative"}, {"cost": "default", "res": "cumulative"}]
+        return [{"cost": c, "res": "worker"} for c in ("const", "const0", "const1", "linear", "poly2", "default")] + [{"cost": "const", "res": "cumulative"}, {"cost": "default", "res": "cumulative"}] + [{"cost": c, "res": "worker", "assign": "select"} for c in ("const", "linear")]
 
     def cases(self, tier):
-        return [c for c in super().cases(tier) if not (c["res"] == "cumulative" and len(c["ts"]) > 2)]
+        return [c for c in super().cases(tier) if not ((c["res"] == "cumulative" or c.get("assign") == "select") and len(c["ts"]) > 2)]
 
     def make_worker(self, ps, P, case):
         c = case["cost"]
@@ -262,6 +300,12 @@ class ResourceIdle(IndBase):
     task_sets = (("Fm", "Fm"), ("Fm", "Vo"), ("Fm", "Vm", "Fm"))
     bounded = "2..3 tasks on one worker; all integers symbolic"
 
+    def extra_cases(self, tier):
+        return [{}, {"assign": "select"}]
+
+    def cases(self, tier):
+        return [c for c in super().cases(tier) if not (c.get("assign") == "select" and len(c["ts"]) > 2)]
+
     def build(self, ps, P, case, pb, w, tasks):
         return ps.IndicatorResourceIdle(resource=w)
 
@@ -288,6 +332,10 @@ class DueBase(IndBase):
     def extra_cases(self, tier):
         return [{"listed": l} for l in self.listed]
 
+    def prio(self, t, case):
+        """the weight of a task: its declared priority, 1 when none is declared (documented default)"""
+        return z3.IntVal(1) if case.get("prio") == "default" else T(t.priority)
+
     def regions(self, P, ctx, case):
         opt = [Not(spec.sched(t)) for t in ctx["tasks"] if t.optional]
         return {"an optional task is left out": Or(*opt)} if opt else None
@@ -298,11 +346,14 @@ class Tardiness(DueBase):
     lifts = True  # element-wise meaning: holds for every list length once the loops are independent (contracts/loops.py)
     target = "indicator.IndicatorTardiness.__init__"
 
+    def extra_cases(self, tier):
+        return super().extra_cases(tier) + [{"listed": True, "prio": "default"}]
+
     def build(self, ps, P, case, pb, w, tasks):
         return ps.IndicatorTardiness(list_of_tasks=tasks) if case["listed"] else ps.IndicatorTardiness()
 
     def definition(self, P, ctx, case):
-        return z3.Sum([If(spec.sched(t), T(t.priority) * spec.zmax(0, t._end - T(t.due_date)), 0) for t in ctx["tasks"]])
+        return z3.Sum([If(spec.sched(t), self.prio(t, case) * spec.zmax(0, t._end - T(t.due_date)), 0) for t in ctx["tasks"]])
 
 
 @register
